@@ -131,9 +131,24 @@ def run_spec(spec: dict) -> list[dict]:
                 tree.run_sprout()
         elif drive[0] == "rerun":            # run() returned; the caller raises the limit of the global condition and calls run() again
             tree.run()
+            same = None
+            if spec.get("dump_same_path"):
+                # a checkpoint file that is overwritten: the finished tree is saved, the caller raises the limit, saves the
+                # tree again to the same file and resumes - the file must hold the tree as it was at the second save
+                import os as _os
+                import tempfile as _tf
+                fd, same = _tf.mkstemp(suffix=".pkl", dir=_os.environ.get("VERIF_SCRATCH") or None)
+                _os.close(fd)
+                rec.do_dump(tree, path=same)
             inner = getattr(tree._gsc, "inner", tree._gsc)
             inner.limit = inner.limit + int(drive[1])
             rec.emit({"e": "retarget", "n": int(inner.limit), "snap": rec.snap(tree, full=True)})
+            if same is not None:
+                try:
+                    rec.do_dump(tree, path=same)
+                finally:
+                    if _os.path.exists(same):
+                        _os.unlink(same)
             tree.run()
         else:
             raise ValueError(drive)
